@@ -146,8 +146,11 @@ def _parse_place(s):
             e = match_paren(inner, 0); base, rest = inner[:e + 1], inner[e + 1:]
         else:
             m = re.match(r"_\d+(\[[^\]]*\])*", inner); base, rest = m.group(0), inner[m.end():]
-        loc, proj = _parse_place(base)
         rest = rest.strip()
+        while rest.startswith("["):
+            e2 = match_paren(rest, 0)
+            base += rest[:e2 + 1]; rest = rest[e2 + 1:].strip()
+        loc, proj = _parse_place(base)
         if rest.startswith("as "):
             t = rest[3:].strip()
             if t.startswith("variant#"):
@@ -311,7 +314,7 @@ def parse_stmt(st):
     if eq < 0:
         return ("unsupported", st)
     lhs, rhs = st[:eq], st[eq + 3:]
-    m = re.search(r"\) -> (\[return: bb(\d+).*\]|unwind .*)$", rhs, re.S)
+    m = re.search(r"\) -> (\[return: bb(\d+).*\]|unwind .*|bb\d+)$", rhs, re.S)
     if m:
         callpart = rhs[:m.start() + 1]
         d = 0; k = len(callpart) - 1
